@@ -334,7 +334,7 @@ theorem exec_spec (c : Cfg) : ∀ fuel, RecSpec c (exec c fuel)
         intro call s _ h
         simp only [exec]
         split
-        · exact h.of_eq rfl rfl
+        · exact (h.push .fuelOut trivial).of_eq rfl rfl
         · exact h
       initPost := by
         intro d s hok _ hres
